@@ -424,6 +424,18 @@ def mk_translation_api(code_id, api, style, include_stop=False):
             from crosshair import deep_realize
 
             k = deep_realize(k)
+        import contextlib as _cl
+
+        if W.PLAIN:
+            untraced = _cl.nullcontext()
+        else:
+            from crosshair.tracers import NoTracing
+
+            untraced = NoTracing()  # the codon is concrete from here on: the public API runs untraced
+        with untraced:
+            return body(k)
+
+    def body(k):
         a, b, c = k // 16, (k // 4) % 4, k % 4
         codon = "TCAG"[a] + "TCAG"[b] + "TCAG"[c]
         seq = "ATGCCA" + codon
